@@ -21,7 +21,7 @@ var (
 
 // C15: compose concatenates its sources in order; copy clones an object.
 func runC15(run *common.Run) {
-	run.Rule = "case = one program in ONE pair of fresh buckets: 2-5 source objects (one empty, some with rich metadata), a baseline dump, then 3-8 compose / copy requests that re-use the same sources (the same leading source over and over), take earlier composed or copied objects as later sources and write destinations that are among the sources, with a whole-store dump after EVERY request (so an earlier object changing under a later request is seen). One case in three (plus a random fifth) contains the append scenario at a random position: a live object X is copied to Y (same bucket, one in four across buckets; half of these copies with a full resource as request body), then X = compose[X, parts] and Y = compose[Y, other parts] are issued 1-3 rounds in either order without any upload in between, the parts being three objects of 1-8, 30-200 and 600-5000 bytes; dump after every request. Compose: 0..33 sources (boundary counts 0,1,2,31,32,33 over-weighted) drawn with repeats from the pool, destination among the sources, a missing source at a random position, per-source generation conditions, destination names with '/', spaces, dots, unicode, pre-existing destination, destination contentType / user metadata. Copy: same and cross bucket, one in three with a request body that is a full destination resource (stale / made-up output-only fields, the source's user-settable fields), destination names containing '/', '/o/', spaces, dots, unicode, missing source, overwrite of an existing destination. Oracle: destination content == concatenation in request order, destination metadata from the request, every source byte-, metadata-, generation- and metageneration-identical to before, >32 => 400, missing => 404 and nothing changed, copy response carries the resource with totalBytesRewritten == objectSize == len(content) and the source's content, MD5 and user-settable metadata. Non-trivial = the program had >= 2 successful requests, a successful compose of >= 2 sources and a step that used an earlier result as a source; distinct by hash of the step log x store."
+	run.Rule = "case = one program in ONE pair of fresh buckets: 2-5 source objects (one empty, some with rich metadata), a baseline dump, then 3-8 compose / copy requests that re-use the same sources (the same leading source over and over), take earlier composed or copied objects as later sources and write destinations that are among the sources, with a whole-store dump after EVERY request (so an earlier object changing under a later request is seen). One case in three (plus a random fifth) contains the append scenario at a random position: a live object X is copied to Y (same bucket, one in four across buckets; half of these copies with a full resource as request body), then X = compose[X, parts] and Y = compose[Y, other parts] are issued 1-3 rounds in either order without any upload in between, the parts being three objects of 1-8, 30-200 and 600-5000 bytes; dump after every request. One case in three (plus a random sixth) contains the same-size scenario: a destination D = compose[a, b(, c)] is written again, while it exists and is itself a composite object, with content of exactly the same length but other bytes - 1-3 rounds of: the same sources in another order; one source overwritten by an upload of other bytes of the same length, then the same list again; a second composite D2 = the sources in yet another order, then D2 copied over D or D over D2 (one copy in three with a resource body). Independently one step in six (when an earlier compose of 2-6 sources succeeded) repeats that compose onto its destination with the sources shuffled. One source in ten is stored with contentEncoding gzip (real gzip bytes) so that copies must carry the encoding along; every media GET of every dump is sent with or without 'Accept-Encoding: gzip'. Compose: 0..33 sources (boundary counts 0,1,2,31,32,33 over-weighted) drawn with repeats from the pool, destination among the sources, a missing source at a random position, per-source generation conditions, destination names with '/', spaces, dots, unicode, pre-existing destination, destination contentType / user metadata. Copy: same and cross bucket, one in three with a request body that is a full destination resource (stale / made-up output-only fields, the source's user-settable fields), destination names containing '/', '/o/', spaces, dots, unicode, missing source, overwrite of an existing destination. Oracle: destination content == concatenation in request order, destination metadata from the request, every source byte-, metadata-, generation- and metageneration-identical to before, >32 => 400, missing => 404 and nothing changed, copy response carries the resource with totalBytesRewritten == objectSize == len(content) and the source's content, MD5 and user-settable metadata. Non-trivial = the program had >= 2 successful requests, a successful compose of >= 2 sources and a step that used an earlier result as a source; distinct by hash of the step log x store."
 	run.Assumptions = []string{
 		"0 sources: a 4xx (nothing changed) or an empty object are both accepted (the statement says 1 to 32)",
 		"a composite object need not carry an md5Hash",
@@ -29,6 +29,7 @@ func runC15(run *common.Run) {
 		"a copy onto the source itself must keep content, MD5 and user-settable metadata and gives the object a new generation",
 		"file store: only names representable as files",
 		"zero-valued byte counts / sizes may be omitted from JSON",
+		"an object stored with contentEncoding gzip is served as stored to a client that sends 'Accept-Encoding: gzip'; without that header the stored bytes or their decompressed form are accepted",
 	}
 	j := common.NewJournal("C15")
 	n := run.N(1500, 40000)
@@ -93,6 +94,10 @@ func c15Case(run *common.Run, srv *drive.Server, idx int) {
 		u := &uploadSpec{Proto: common.Pick(r, []string{"media", "multipart"}), Bucket: b1, Name: n, Body: body, CT: common.Pick(r, contentTypes), CTMode: "both", Boundary: genBoundary(r)}
 		if u.Proto == "multipart" && r.Bool() {
 			u.UserMeta = genUserMeta(r)
+		}
+		if u.Proto == "multipart" && n != "empty" && r.Chance(1, 5) {
+			// a source stored with contentEncoding gzip (its bytes are a gzip stream): copies must carry the encoding along
+			u.Body, u.ContentEncoding = drive.Gzip(body), "gzip"
 		}
 		if msg := e.upload(u, r); msg != "" {
 			fail("set-up: " + msg)
@@ -231,17 +236,198 @@ func c15Case(run *common.Run, srv *drive.Server, idx int) {
 		}
 		return true
 	}
+	// The same-size scenario: an EXISTING destination that is itself a composite object (composites carry no md5Hash) is
+	// written again with content of exactly the same length but other bytes - the same sources composed in another
+	// order, the same source list after one source was overwritten by same-length content, a composite copied over
+	// another composite of equal size. Responses, sizes and generations cannot tell stale bytes from new ones; the
+	// dump after every request compares the content. Returns false after a violation.
+	sameSizeScenario := func() bool {
+		// two sources with different non-empty contents of (possibly) different lengths
+		var srcs []string
+		for _, n := range e.liveIn(b1) {
+			if o := e.m.Get(b1, n); len(o.Content) > 0 && n != "empty" {
+				srcs = append(srcs, n)
+			}
+		}
+		common.Shuffle(r, srcs)
+		if len(srcs) < 2 || string(e.m.Get(b1, srcs[0]).Content) == string(e.m.Get(b1, srcs[1]).Content) {
+			return true
+		}
+		a, bb := srcs[0], srcs[1]
+		var dsts []string
+		for tries := 0; tries < 30 && len(dsts) < 2; tries++ {
+			d, ok := pickName(b1, dstCands)
+			if ok && d != a && d != bb && !contains(dsts, d) && (!file || representable(d, append(e.liveIn(b1), dsts...))) {
+				dsts = append(dsts, d)
+			}
+		}
+		if len(dsts) == 0 {
+			return true
+		}
+		run.Count("same_size_scenarios", 1)
+		list := []string{a, bb}
+		if r.Chance(1, 3) {
+			list = append(list, common.Pick(r, srcs)) // a third source, possibly a repeat
+		}
+		comp := func(dst string, names []string) bool {
+			spec := &composeSpec{Bucket: b1, Dst: dst}
+			for _, n := range names {
+				spec.Srcs = append(spec.Srcs, composeSrc{Name: n})
+			}
+			if r.Chance(1, 2) {
+				spec.CT = common.Pick(r, contentTypes)
+			}
+			if r.Chance(1, 3) {
+				spec.UserMeta = genUserMeta(r)
+			}
+			cur := e.m.Get(b1, dst)
+			var next []byte
+			for _, n := range names {
+				next = append(next, e.m.Get(b1, n).Content...)
+			}
+			before := e.stats["composes_ok"]
+			if !checked(e.compose(spec)) {
+				return false
+			}
+			if e.stats["composes_ok"] > before {
+				okOps++
+				bigCompose++
+				composed[dst] = true
+				if cur != nil && cur.Composite && len(cur.Content) == len(next) && string(cur.Content) != string(next) {
+					run.Count("composes_onto_a_composite_of_equal_size_other_bytes", 1)
+				}
+			}
+			return true
+		}
+		permuted := func(names []string) []string {
+			out := append([]string(nil), names...)
+			for tries := 0; tries < 8; tries++ {
+				common.Shuffle(r, out)
+				if strings.Join(out, "\x00") != strings.Join(names, "\x00") {
+					break
+				}
+			}
+			return out
+		}
+		d := dsts[0]
+		if !comp(d, list) {
+			return false
+		}
+		for round, rounds := 0, r.Range(1, 3); round < rounds; round++ {
+			switch r.Intn(3) {
+			case 0:
+				// the same sources in another order
+				list = permuted(list)
+				if !comp(d, list) {
+					return false
+				}
+			case 1:
+				// one source overwritten by other content of the same length, then the same list again
+				sn := common.Pick(r, list)
+				old := e.m.Get(b1, sn)
+				body := r.Bytes(len(old.Content))
+				u := &uploadSpec{Proto: common.Pick(r, []string{"media", "multipart"}), Bucket: b1, Name: sn, Body: body, CT: common.Pick(r, contentTypes), CTMode: "both", Boundary: genBoundary(r)}
+				if !checked(e.upload(u, r)) {
+					return false
+				}
+				run.Count("sources_overwritten_by_same_length_content", 1)
+				if !comp(d, list) {
+					return false
+				}
+			case 2:
+				// a second composite of the same size (another order) is copied over the first, or the first over it
+				if len(dsts) < 2 {
+					continue
+				}
+				d2 := dsts[1]
+				if !comp(d2, permuted(list)) {
+					return false
+				}
+				from, to := d2, d
+				if r.Bool() {
+					from, to = d, d2
+				}
+				fo, to0 := e.m.Get(b1, from), e.m.Get(b1, to)
+				sameSize := fo != nil && to0 != nil && to0.Composite && fo.Composite && len(fo.Content) == len(to0.Content) && string(fo.Content) != string(to0.Content)
+				before := e.stats["copies_ok"]
+				if r.Chance(1, 3) {
+					if !checked(e.copyObjBody(b1, from, b1, to, genCopyBody(r, e, b1, from, b1, to))) {
+						return false
+					}
+				} else if !checked(e.copyObj(b1, from, b1, to)) {
+					return false
+				}
+				if e.stats["copies_ok"] > before {
+					okOps++
+					reused++
+					if sameSize {
+						run.Count("copies_of_a_composite_onto_a_composite_of_equal_size_other_bytes", 1)
+					}
+				}
+			}
+		}
+		return true
+	}
 	nsteps := r.Range(3, 8)
-	scenarioAt := -1
+	scenarioAt, sameSizeAt := -1, -1
 	if idx%3 == 0 || r.Chance(1, 5) {
 		scenarioAt = r.Intn(nsteps)
 	}
+	if idx%3 == 1 || r.Chance(1, 6) {
+		sameSizeAt = r.Intn(nsteps)
+	}
+	// earlier successful composes of this case (destination, source list): some later steps repeat one of them with
+	// the sources in another order, i.e. onto an existing composite destination of the same size
+	type pastCompose struct {
+		dst  string
+		srcs []string
+	}
+	var past []pastCompose
 	for st := 0; st < nsteps; st++ {
 		if st == scenarioAt {
 			if !appendScenario() {
 				return
 			}
 			continue
+		}
+		if st == sameSizeAt {
+			if !sameSizeScenario() {
+				return
+			}
+			continue
+		}
+		if len(past) > 0 && r.Chance(1, 6) {
+			// ---- an earlier compose once more, sources in another order (those that are still live)
+			pc := common.Pick(r, past)
+			names := append([]string(nil), pc.srcs...)
+			common.Shuffle(r, names)
+			spec := &composeSpec{Bucket: b1, Dst: pc.dst}
+			ok := true
+			for _, n := range names {
+				if e.m.Get(b1, n) == nil {
+					ok = false
+				}
+				spec.Srcs = append(spec.Srcs, composeSrc{Name: n})
+			}
+			if ok && (!file || e.m.Get(b1, pc.dst) != nil || representable(pc.dst, e.liveIn(b1))) {
+				cur := e.m.Get(b1, pc.dst)
+				var next []byte
+				for _, n := range names {
+					next = append(next, e.m.Get(b1, n).Content...)
+				}
+				before := e.stats["composes_ok"]
+				if !checked(e.compose(spec)) {
+					return
+				}
+				if e.stats["composes_ok"] > before {
+					okOps++
+					run.Count("earlier_composes_repeated_in_another_order", 1)
+					if cur != nil && cur.Composite && len(cur.Content) == len(next) && string(cur.Content) != string(next) {
+						run.Count("composes_onto_a_composite_of_equal_size_other_bytes", 1)
+					}
+				}
+				continue
+			}
 		}
 		live := e.liveIn(b1)
 		if r.Chance(6, 10) {
@@ -311,6 +497,13 @@ func c15Case(run *common.Run, srv *drive.Server, idx int) {
 			if e.stats["composes_ok"] > before {
 				okOps++
 				composed[dst] = true
+				if len(spec.Srcs) >= 2 && len(spec.Srcs) <= 6 {
+					var names []string
+					for _, sr := range spec.Srcs {
+						names = append(names, sr.Name)
+					}
+					past = append(past, pastCompose{dst, names})
+				}
 				if len(spec.Srcs) >= 2 {
 					bigCompose++
 				}
